@@ -122,6 +122,11 @@ pub(crate) mod verif_zone_prune {
     }
 
     // ---- the summary invariant is inductive under the real insert path ----
+    /// min and max belong to one comparability class (numeric or Bool): the (min, max) kind pairs the prune_* / range_* harnesses range over
+    fn same_class(a: &Value, b: &Value) -> bool {
+        let num = |v: &Value| matches!(v, Value::Int64(_) | Value::Float64(_));
+        (num(a) && num(b)) || (matches!(a, Value::Bool(_)) && matches!(b, Value::Bool(_)))
+    }
     fn step(kmin: u8, kmax: u8, kv: u8, kw: u8) {
         let (min, max, v, w) = (val(kmin), val(kmax), val(kv), val(kw));
         kani::assume(summarises(&min, &max, &v));
@@ -131,6 +136,7 @@ pub(crate) mod verif_zone_prune {
         col.update_zone_map_on_insert(&w);
         let (min2, max2) = (col.zone_map.min.as_ref().unwrap(), col.zone_map.max.as_ref().unwrap());
         assert!(summarises(min2, max2, &v), "an earlier value fell out of the summary");
+        assert!(same_class(min2, max2), "min and max left their common comparability class");
         if !matches!(w, Value::Null) { assert!(summarises(min2, max2, &w), "the inserted value is outside the summary"); }
         assert!(col.zone_map.row_count == rows + 1);
         assert!(col.zone_map.null_count == nulls + (matches!(w, Value::Null) as u64));
@@ -148,6 +154,7 @@ pub(crate) mod verif_zone_prune {
             assert!(col.zone_map.min.is_none() && col.zone_map.max.is_none() && col.zone_map.null_count == 1 && col.zone_map.row_count == 1);
         } else {
             assert!(summarises(col.zone_map.min.as_ref().unwrap(), col.zone_map.max.as_ref().unwrap(), &w));
+            assert!(same_class(col.zone_map.min.as_ref().unwrap(), col.zone_map.max.as_ref().unwrap()));
             assert!(col.zone_map.null_count == 0 && col.zone_map.row_count == 1);
         }
         kani::cover!(true);
@@ -165,14 +172,22 @@ mod verif_range_prune {
         match kind { 0 => Value::Int64(kani::any()), 1 => Value::Float64(kani::any()), _ => Value::Bool(kani::any()) }
     }
     use super::super::property::verif_zone_prune::summarises;     // the invariant the column's insert path maintains
-    fn range(kmin: u8, kmax: u8, kv: u8, klo: u8, khi: u8) {
+    fn in_exact_domain(v: &Value) -> bool { match v { Value::Int64(i) => *i >= -(1i64 << 53) && *i <= (1i64 << 53), _ => true } }
+    // exact == true: integer payloads restricted to |i| <= 2^53, where i64 -> f64 is exact (the KNOWN mixed Int64/Float64 rounding class is
+    // excluded there, any other disagreement still fails an obligation that passes on the unchanged tree)
+    fn range(exact: bool, kmin: u8, kmax: u8, kv: u8, klo: u8, khi: u8) {
         let (min, max, v) = (val(kmin), val(kmax), val(kv));
         kani::assume(summarises(&min, &max, &v));
+        if exact { kani::assume(in_exact_domain(&min) && in_exact_domain(&max) && in_exact_domain(&v)); }
         let (nulls, rows): (u64, u64) = (kani::any(), kani::any());
         kani::assume(nulls < rows);
         let e = ZoneMapEntry::with_min_max(min, max, nulls, rows);
         let lo = if klo == 9 { None } else { Some(val(klo)) };
         let hi = if khi == 9 { None } else { Some(val(khi)) };
+        if exact {
+            if let Some(l) = &lo { kani::assume(in_exact_domain(l)); }
+            if let Some(h) = &hi { kani::assume(in_exact_domain(h)); }
+        }
         let (li, hi_incl): (bool, bool) = (kani::any(), kani::any());
         let inside = value_in_range(&v, lo.as_ref(), hi.as_ref(), li, hi_incl);
         let r = e.might_contain_range(lo.as_ref(), hi.as_ref(), li, hi_incl);
@@ -180,7 +195,7 @@ mod verif_range_prune {
         kani::cover!(inside);
         std::mem::forget(e); std::mem::forget(v); std::mem::forget(lo); std::mem::forget(hi);
     }
-    macro_rules! range { ($n:ident, $a:expr, $b:expr, $c:expr, $d:expr, $e:expr) => { #[kani::proof] fn $n() { range($a, $b, $c, $d, $e); } }; }
+    macro_rules! range { ($n:ident, $x:expr, $a:expr, $b:expr, $c:expr, $d:expr, $e:expr) => { #[kani::proof] fn $n() { range($x, $a, $b, $c, $d, $e); } }; }
     //@GENERATED-RANGE@
 
     // ---- the range path answers exactly what the expression evaluator answers (C10: range path == plain scan + filter) ----
